@@ -297,6 +297,77 @@ def collision_search(rep, rng, tier):
                                      'other': n2 if n == n1 else n1})
 
 
+IND_ENDS = [[0, 0xfffffffc, 0, 0], [0, (1 << 64) - 4, 0, 0], [0, 0x51f3, 0x6a2d, 0x7b1c], [0, 0, 0, 0], [35, 0xffffffff, 0, 0],
+            [0, 0x80000000, 1, 2]]
+
+
+def tail_of(name, start, end, lookups):
+    t = render(name, start, end, lookups)
+    sp = D.split_call(t) if t is not None else None
+    return None if sp is None else sp[2]
+
+
+def start_independence(rep, rng, tier):
+    """The result part is a function of the END record alone — for EVERY START record: each single bit of each START word
+    set / cleared against the base window, under END records of every kind (success with a return word that is negative as
+    int32 / int64, plain success, zero, an error).  A decoder whose START record switches the result's interpretation (a flag
+    bit selecting 'errno in the return value', a mode word selecting signedness) fails it."""
+    sec = rep.section('start-independence')
+    names = [n for n in bsd_names(only_supported=False) if n not in EXEMPT]
+    nbits = 10 if tier == 'quick' else 64
+    sec['rule'] = ('failing-input search on the real code: every non-exempt BSD decoder x each START word x %s single bits '
+                   'flipped against a decodable base window x %d END records (negative-as-int32 / int64 return words, zero, '
+                   'plain, an error): the result part must be the one of the base window' % (
+                       'all 64' if nbits == 64 else '%d random (all 64 when the source changed)' % nbits, len(IND_ENDS)))
+    lookups = [['/p/one', 11], ['/q/two', 22], ['/r/three', 33], ['/s/4', 44], ['/t/5', 55], ['/u/6', 66]]
+    for n in names:
+        base = find_base(n, lookups, [0, 9, 0, 0])
+        if base is None:
+            continue
+        want = [tail_of(n, base, e, lookups) for e in IND_ENDS]
+        hit = None
+        for k in range(4):
+            for b in (range(64) if nbits == 64 else sorted(rng.sample(range(64), nbits) + [24 + k])):
+                s2 = list(base)
+                s2[k] = base[k] ^ (1 << b)
+                for e, w in zip(IND_ENDS, want):
+                    if w is None:
+                        continue
+                    sec['cases'] += 1
+                    got = tail_of(n, s2, e, lookups)
+                    if got is None:
+                        continue
+                    sec['distinct_nontrivial'] += 1
+                    if got != w:
+                        hit = (k, b, s2, e, w, got)
+                        break
+                if hit:
+                    break
+            if hit:
+                break
+        if hit:
+            k, b, s2, e, w, got = hit
+            rep.add_failure('result:%s:result-depends-on-start' % n,
+                            'END record (error=%d, return=%#x): result part %r became %r when bit %d of START word %d changed '
+                            '(%#x -> %#x)' % (e[0], e[1], w, got, b, k, base[k], s2[k]),
+                            {'section': 'start-independence', 'decoder': n, 'start': base, 'start2': s2, 'end': e})
+
+
+def replay_start_independence(rp, path):
+    lookups = [['/p/one', 11], ['/q/two', 22], ['/r/three', 33], ['/s/4', 44], ['/t/5', 55], ['/u/6', 66]]
+    a = render(rp['decoder'], rp['start'], rp['end'], lookups)
+    b = render(rp['decoder'], rp['start2'], rp['end'], lookups)
+    print('START %s END %s -> %s' % (rp['start'], rp['end'], a))
+    print('START %s END %s -> %s' % (rp['start2'], rp['end'], b))
+    ta, tb = tail_of(rp['decoder'], rp['start'], rp['end'], lookups), tail_of(rp['decoder'], rp['start2'], rp['end'], lookups)
+    if ta != tb:
+        print('result parts differ: %r vs %r' % (ta, tb))
+        print(f'VIOLATION property=C10 replay={path}')
+        return 1
+    print('no violation on this input')
+    return 0
+
+
 def correspondence(rep, rng, tier):
     names = bsd_names()
     D.section_decoders(rep, rng, tier, names=names, name='decoders-bsd')
@@ -316,6 +387,7 @@ def correspondence(rep, rng, tier):
     _matching(rep, rng, tier)
     history_search(rep, rng, tier)
     collision_search(rep, rng, tier)
+    start_independence(rep, rng, tier)
     from .. import tsorder
     tsorder.section(rep, rng, tier, 'C10')
 
@@ -347,6 +419,8 @@ def replay(path):
         if bad:
             print(f'VIOLATION property=C10 replay={path}')
         return 1 if bad else 0
+    if rp.get('section') == 'start-independence':
+        return replay_start_independence(rp, path)
     if rp.get('section') == 'result-collisions':
         lookups = [['/p/one', 11], ['/q/two', 22], ['/r/three', 33], ['/s/4', 44], ['/t/5', 55], ['/u/6', 66]]
         n, b = rp['decoder'], rp['start']
